@@ -129,8 +129,16 @@ def shape_of(m):
     return [len(m), len(m[0]), len(m[0][0])]
 
 
+REV = [0]
+
+
 def case(kind, m):
-    return {"kind": kind, "shape": shape_of(m), "m": m}
+    c = {"kind": kind, "shape": shape_of(m), "m": m}
+    if kind.endswith("_module"):
+        REV[0] += 1
+        if REV[0] % 3 != 2:
+            c["rev_dict"] = True      # two of three module cases: materials dict inserted in descending-permittivity order
+    return c
 
 
 def gen_cases(ctx):
